@@ -99,7 +99,9 @@ class JobControl:
         return self._active_agent
 
     def is_running(self, name) -> bool:
-        if self._active_agent is not None and self._active_agent.name == name:
+        # One read: the job may finish, and the field be cleared, at any time.
+        agent = self._active_agent
+        if agent is not None and agent.name == name:
             return True
         return name in self._background
 
@@ -134,10 +136,11 @@ class JobControl:
         return result
 
     def stop_current(self) -> bool:
-        if self._active_agent is not None and self._active_agent.is_running():
+        agent = self._active_agent
+        if agent is not None and agent.is_running():
             if self._acquire_lock():
                 try:
-                    self._active_agent.request_stop()
+                    agent.request_stop()
                 finally:
                     self._release_lock()
                 return True
